@@ -257,6 +257,9 @@ class Program:
             from .normalize import desugar, forward_substitute_temps as _fst
 
             n_ds = desugar(tree)
+            from .normalize import expand_dispatch
+
+            n_ds += expand_dispatch(tree)
             _fst(tree)  # so that `g = helper(...); for x in g:` is seen as one consumer by the inliner
 
             global _BASELINE
